@@ -364,6 +364,10 @@ class Agent(dbus.service.Object):
     def _apply_primary(self, ctr):
         ''' Touch up primary block content from defaults.
         '''
+        if 'receive' in ctr.actions:
+            # a bundle being forwarded keeps the primary block it came with
+            return
+
         pri_blk = ctr.bundle.primary
 
         if pri_blk.source is None:
